@@ -659,50 +659,39 @@ def r5(ctx, facts):
     withrot = [x for x in early if ("computeRot", True) in x.conds]
     ok = ok and bool(withrot) and [withrot[0].env.get(("rot", k)).const_value() if withrot[0].env.get(("rot", k)) is not None else None for k in range(9)] == [1, 0, 0, 0, 1, 0, 0, 0, 1]
     ctx.decide(ok, "C06-R5", C.line(fn), TH, "msd_atom_major", "same pointer and same trace -> msd 0 and identity rotation", "", "the shortcut for identical structures returns something else")
-    niters = p.env.get("niters")
-    ok = niters is not None and repr(niters) in ("idiv(3 + nrealatoms,4)",)
-    ctx.decide(ok, "C06-R5", C.line(fn), TH, "msd_atom_major", "niters = ceil(n/4)", "", "niters is %r" % (niters,))
-    mk = p.env.get("mask")
-    ok = isinstance(mk, Ptr) and isinstance(mk.base, tuple) and mk.base[0] == "masks" and mk.base[1] == "mod(nrealatoms,4)"
-    ctx.decide(ok, "C06-R5", C.line(fn), TH, "msd_atom_major", "tail mask row = n mod 4", "", "mask row is %r" % (mk,))
-    lb = _loop_body(body[i_for])
-    adv = {}
-    for r_ in range(4):
-        for last in (True, False):
-            s = p.fork()
-            s.env["mask"] = Ptr(("masks", r_), 0)
-            outs = [o for o in ex.run(C.kids(lb), s) if o.conds and o.conds[-1][1] is last and "niters" in o.conds[-1][0]]
-            if len(outs) != 1:
-                raise AnalysisError("msd_atom_major: loop body paths not recognised (%s)" % [o.conds[-1:] for o in ex.run(C.kids(lb), p.fork())])
-            o = outs[0]
-            for ptr in ("a", "b"):
-                adv[ptr] = o.env.get(ptr)
-            seen_calls.clear()
-            fin = ex.run(body[i_for + 1:], o)
-            if len(fin) != 1 or len(seen_calls) != 1:
-                raise AnalysisError("msd_atom_major: epilogue not straight-line")
-            fo = fin[0]
-            lanes = range(4) if (not last or r_ == 0) else range(r_)
-            bad = []
-            for i in range(3):
-                for j in range(3):
-                    want = sum((_sym("a[%d]" % (3 * l + i)) * _sym("b[%d]" % (3 * l + j)) for l in lanes), Rat(Poly.const(0)))
-                    got = fo.env.get(("M", 3 * i + j))
-                    if got is None or not (got == want):
-                        bad.append((3 * i + j, got))
-            ctx.decide(not bad, "C06-R5", C.line(fn), TH, "msd_atom_major", "M[3i+j] = sum_l a_i b_j (%s iteration, n mod 4 = %d, %d atoms)" % ("last" if last else "inner", r_, len(list(lanes))), "",
-                       "inner-product matrix entries %s differ from sum a_i b_j over the %d real atoms of this block" % ([(k, repr(g)[:60]) for k, g in bad[:3]], len(list(lanes))))
-            args = seen_calls[0]
-            ok = isinstance(args[0], Ptr) and args[0].base == "M" and args[0].off == 0 and args[1] == _sym("G_a") and args[2] == _sym("G_b") and args[3] == _sym("nrealatoms") and \
-                args[4] == _sym("computeRot") and isinstance(args[5], Ptr) and args[5].base == "rot"
-            if r_ == 0 and last:
-                ctx.decide(ok, "C06-R5", C.line(fn), TH, "msd_atom_major", "msdFromMandG(M, G_a, G_b, nrealatoms, computeRot, rot)", "", "msdFromMandG receives %r" % (args,))
-    ok = all(isinstance(adv.get(x), Ptr) and adv[x].off == 12 for x in ("a", "b"))
-    ctx.decide(ok, "C06-R5", C.line(fn), TH, "msd_atom_major", "both structures advance by 4 atoms per iteration", "", "pointer advance is %r" % (adv,))
-    # mask table rows
-    rows = {r_: [p.env.get(("masks", (r_, j))).const_value() for j in range(4)] for r_ in range(4)}
-    ok = rows == {0: [1, 1, 1, 1], 1: [1, 0, 0, 0], 2: [1, 1, 0, 0], 3: [1, 1, 1, 0]}
-    ctx.decide(ok, "C06-R5", C.line(fn), TH, "msd_atom_major", "mask rows select the first (n mod 4) atoms of the last block", "", "mask table is %s" % rows)
+    ok = any(isinstance(v_, Rat) and repr(v_) in ("idiv(3 + nrealatoms,4)",) for k_, v_ in p.env.items() if isinstance(k_, str))
+    ctx.decide(ok, "C06-R5", C.line(fn), TH, "msd_atom_major", "the number of blocks of four atoms is ceil(n/4)", "", "no local holds (nrealatoms + 3) / 4")
+    # the whole kernel for n = 1 .. 9 atoms (every remainder mod 4 with no, one and two full blocks before the last): the loop runs with its concrete
+    # trip count over symbolic coordinates; how the tail is masked (a table, bit patterns, a scalar loop) is the kernel's business - by value, the
+    # matrix handed on is the inner-product matrix of exactly the n real atoms
+    for n_ in range(1, 10):
+        s0 = State()
+        s0.env["nrealatoms"] = Rat(Poly.const(n_))
+        s0.env["npaddedatoms"] = Rat(Poly.const(4 * ((n_ + 3) // 4)))
+        seen_calls.clear()
+        try:
+            outs = [o for o in ex.run(body, s0) if o.ret is not None and o.ret == _sym("msd")]
+        except Unsupported as e:
+            ctx.undecided("C06-R5", C.line(fn), TH, "msd_atom_major", "M[3i+j] = sum over the n real atoms of a_i b_j (n = %d)" % n_, "not evaluable: %s" % e)
+            continue
+        if len(outs) != 1 or len(seen_calls) != 1:
+            raise AnalysisError("msd_atom_major: %d paths reach msdFromMandG for n = %d" % (len(outs), n_))
+        fo, args = outs[0], seen_calls[0]
+        bad = []
+        for i in range(3):
+            for j in range(3):
+                want = sum((_sym("a[%d]" % (3 * l + i)) * _sym("b[%d]" % (3 * l + j)) for l in range(n_)), Rat(Poly.const(0)))
+                got = fo.env.get(("M", 3 * i + j))
+                if got is None or not (got == want):
+                    bad.append((3 * i + j, got))
+        extra = sorted({v for k, g in bad if g is not None for v in g.vars() if re.match(r"[ab]\[(\d+)\]$", v) and int(re.match(r"[ab]\[(\d+)\]$", v).group(1)) >= 3 * n_})
+        ctx.decide(not bad, "C06-R5", C.line(fn), TH, "msd_atom_major", "M[3i+j] = sum over the n real atoms of a_i b_j (n = %d, n mod 4 = %d)" % (n_, n_ % 4), "",
+                   "inner-product matrix entries %s differ from sum a_i b_j over the %d real atoms%s" % ([(k, repr(g)[:60]) for k, g in bad[:2]], n_,
+                   ("; they read %s, which lie beyond the structure (the next frame in memory)" % extra[:3]) if extra else ""))
+        ok = isinstance(args[0], Ptr) and args[0].base == "M" and args[0].off == 0 and args[1] == _sym("G_a") and args[2] == _sym("G_b") and args[3] == Rat(Poly.const(n_)) and \
+            args[4] == _sym("computeRot") and isinstance(args[5], Ptr) and args[5].base == "rot"
+        if n_ == 4:
+            ctx.decide(ok, "C06-R5", C.line(fn), TH, "msd_atom_major", "msdFromMandG(M, G_a, G_b, nrealatoms, computeRot, rot)", "", "msdFromMandG receives %r" % (args,))
 
     # ---- rotation kernels
     ctx.analysed_files.add(ROT)
